@@ -142,7 +142,11 @@ pub fn resaved_case(r: &mut Rng, d: &RDoc, xref_stream: bool) -> Result<Case, St
     // still has to list every object and state a Size above all of them
     if r.chance(1, 3) {
         if let Some(patched) = understate_size(&src, r) {
-            if Document::load_mem(&patched).is_ok() {
+            // (where Size also bounds what is read - a cross-reference stream without Index - objects are lost at load;
+            // that is the reader's business: only sources that still load completely are used)
+            let ids = |b: &[u8]| Document::load_mem(b).ok().map(|d| d.objects.keys().cloned().collect::<Vec<_>>());
+            let complete = ids(&patched);
+            if complete.is_some() && complete == ids(&src) {
                 let xs_out = r.bool();
                 return resave(&patched, xs_out).map(|mut c| {
                     c.kind = if xs_out { "resaved-size-understated/xref-stream" } else { "resaved-size-understated/xref-table" };
